@@ -162,7 +162,7 @@ impl Property for C01 {
         }
         // corpus damage + random text via proptest streams
         let corpus = corpus();
-        let cases = ctx.tier.pick(40_000, 800_000);
+        let cases = ctx.tier.pick(300_000, 800_000);
         ctx.run_streams("c01-damage", cases, 96, |ctx, bytes| {
             let mut c = Choices::new(bytes);
             let (text, origin) = if !corpus.is_empty() && c.chance(170) {
